@@ -205,6 +205,11 @@ def deep_case(rng):
                                   repr(round(cy - sy, 4)))
     case = {"region": region, "sx": round(sx, 4), "sy": round(sy, 4), "cmd": cmd,
             "units": rng.choice(["mm", "mm", "mm", "inch", "stale", "m206"])}
+    if almost and rng.random() < 0.5:
+        # the usual way to command a full circle: centre offsets only, no X / Y word at all
+        case["units"] = "mm"
+        case["cmd"] = "%s I%s J%s" % ("G2" if clockwise else "G3", repr(round(cx - sx, 4)),
+                                      repr(round(cy - sy, 4)))
     if case["units"] == "m206":
         # home offsets (different for X and Y): the file's coordinates are shifted, the arc's
         # physical path is the same
